@@ -39,8 +39,10 @@ class C12(F.Spec):
             "recalibrate, never a flash erase/factory hook. (B) button gestures without server traffic: holds of 1-7 s "
             "and 3-14 quick toggles on cfg / non-cfg / factory-reset inputs. Non-trivial: a CALCFG was answered or a "
             "gesture completed; distinct = (board, command class, auth, outcome).")
-    assumptions = ["board calcfg hook returns false (analysed configuration)", "boot-time entry (incomplete configuration) is "
-                   "user_main.c, which is not linked into the harness: not covered",
+    assumptions = ["board calcfg hook returns false (analysed configuration)",
+                   "boot-time entry: the real user_init (user_main.c) is run by a second driver (drv_boot) on every combination of "
+                   "empty / non-empty server, e-mail, Wi-Fi name, Wi-Fi password, location id, location password (and, in the MQTT "
+                   "build, the protocol / no-auth / locked flags)",
                    "MQTT 'recalibrate' command topics are outside 'server message' (DESIGN.md O5)"]
 
     def cases(self, rng, tier):
@@ -250,6 +252,103 @@ class C12(F.Spec):
             if entered and not cfg_hold and not cfg_toggles:
                 fs.append(F.Finding("cfgmode-without-gesture", "cfg mode entered; longest hold on the cfg button %d ms, %d presses; "
                                     "other buttons: %s" % (holds.get(9, 0), presses.get(9, 0), {k: v for k, v in holds.items() if k != 9})))
+        return fs
+
+    def boot_family(self, tier="quick", rng=None):
+        """user_init on every combination of what it looks at, both builds: the decision of the real code, of the Lean model
+        (bootCfgModeBase / bootCfgModeMqtt) and the property's reading (configuration mode only with an incomplete configuration)"""
+        import common as C
+        from props.c14 import SPEC as C14
+        o = C14.offsets()
+        out, ev = [], 0
+        self._boot_diff = []
+        for variant, flags, units, nbits in (("base", [], [], 6), ("mqtt", ["-DMQTT_SUPPORT_ENABLED"], C.MQTT_UNITS, 9)):
+            exe = C.build_driver("drv_boot", variant, extra_units=["src/user/user_main.c"] + list(units),
+                                 extra_flags=["-DSPI_FLASH_SIZE_MAP=2"] + flags)
+            vs = list(range(1 << nbits))
+            if tier == "quick" and nbits > 6 and rng is not None:
+                vs = sorted(rng.sample(vs, 96))        # the quick tier samples the MQTT build; the thorough tier runs all 512
+            mrc, mlines, merr = C.run_lines([C.svdrv(), "calcfg"], "".join(
+                "bootcfg %s %s\n" % (variant, "".join(str((v >> k) & 1) for k in range(9))) for v in vs))
+            model = [x for x in mlines if x.startswith("BOOT ")]
+            for vi, v in enumerate(vs):
+                b = [(v >> k) & 1 for k in range(9)]      # locId0 locPwd0 email0 server0 wifiPwd0 ssid0 mqtt noauth locked
+                fl = (1 if b[6] else 0) | (8 if b[7] else 0) | (16 if b[8] else 0)
+                ops = ["prepare",
+                       "set %d %s" % (o["port"], (0 if b[0] else 77).to_bytes(4, "little").hex()),
+                       "set %d %s" % (o["pwd"], (b"\0" if b[1] else b"secret\0").hex()),
+                       "set %d %s" % (o["email"], (b"\0" if b[2] else b"user@example.org\0").hex()),
+                       "set %d %s" % (o["server"], (b"\0" if b[3] else b"srv.example\0").hex()),
+                       "set %d %s" % (o["wpwd"], (b"\0" if b[4] else b"wifisecret\0").hex()),
+                       "set %d %s" % (o["ssid"], (b"\0" if b[5] else b"net\0").hex()),
+                       "set %d %s" % (o["flags"], fl.to_bytes(4, "little").hex()),
+                       "save", "userinit"]
+                rc, lines, err = C.run_lines([exe], "\n".join(ops) + "\n")
+                ev += 1
+                if rc != 0:
+                    out.append((F.Finding("crash", "user_init aborted (rc=%s): %s" % (rc, err[-600:])), ops))
+                    return ev, out
+                got = [x for x in lines if x.startswith("BOOT ")]
+                bits = "".join(str(x) for x in b)
+                want = model[vi:vi + 1]
+                if got != want and not self._boot_diff:
+                    self._boot_diff.append("%s build, bits %s (locId0 locPwd0 email0 server0 wifiPwd0 ssid0 mqtt noauth locked): user_init %s, "
+                                           "model %s\n%s" % (variant, bits, got, want, "\n".join(ops)))
+                complete = not (b[2] or b[3] or b[4] or b[5])
+                if variant == "mqtt" and b[6]:
+                    complete = not (b[3] or b[4] or b[5] or b[8] or (not b[7] and (b[2] or b[1])))
+                if complete and got == ["BOOT cfgmode=1"]:
+                    out.append((F.Finding("cfgmode-at-boot-with-complete-configuration", "%s build: server, Wi-Fi and account are set "
+                                          "(bits %s) but the device starts its open configuration mode" % (variant, bits)), ops))
+                    return ev, out
+        return ev, out
+
+    def extra_static(self, tier):
+        """the boot decision of the real user_init equals the Lean model on every combination run (a disagreement breaks the
+        tie; whether it is a violation is decided by the property's reading in extra_findings)"""
+        import common as C
+        try:
+            self._boot = self.boot_family(tier, C.Rng(12))
+        except C.BuildError as e:
+            self._boot = (0, [])
+            return [("boot decision: user_init = model", False, "drv_boot does not build: " + str(e)[-800:])]
+        return [("boot decision: user_init = model", not self._boot_diff, self._boot_diff[0] if self._boot_diff else "")]
+
+    def extra_findings(self, tier, rng):
+        if getattr(self, "_boot", None) is None:
+            self._boot = self.boot_family(tier, rng)
+        ev, out = self._boot
+        return ev, ev, out
+
+    def extra_replay(self, ops):
+        """replays of the boot family (ops end with userinit): judged by the property's reading"""
+        if not ops or ops[-1] != "userinit":
+            return []
+        import common as C
+        fs = []
+        for variant, flags, units in (("base", [], []), ("mqtt", ["-DMQTT_SUPPORT_ENABLED"], C.MQTT_UNITS)):
+            exe = C.build_driver("drv_boot", variant, extra_units=["src/user/user_main.c"] + list(units),
+                                 extra_flags=["-DSPI_FLASH_SIZE_MAP=2"] + flags)
+            rc, lines, err = C.run_lines([exe], "\n".join(ops) + "\n")
+            if rc != 0:
+                return [F.Finding("crash", "user_init aborted (rc=%s): %s" % (rc, err[-600:]))]
+            vals = {}
+            for o in ops:
+                t = o.split()
+                if t[0] == "set":
+                    vals[int(t[1])] = bytes.fromhex(t[2])
+            from props.c14 import SPEC as C14
+            of = C14.offsets()
+            empty = lambda k: vals.get(of[k], b"x")[:1] == b"\0"
+            fl = int.from_bytes(vals.get(of["flags"], bytes(4)), "little")
+            complete = not (empty("email") or empty("server") or empty("wpwd") or empty("ssid"))
+            if variant == "mqtt" and fl & 1:
+                complete = not (empty("server") or empty("wpwd") or empty("ssid") or fl & 16 or (not fl & 8 and (empty("email") or empty("pwd"))))
+            if variant == "base" and fl:
+                continue
+            if complete and "BOOT cfgmode=1" in lines:
+                fs.append(F.Finding("cfgmode-at-boot-with-complete-configuration", "%s build: the configuration is complete but the "
+                                    "device starts its open configuration mode" % variant))
         return fs
 
     def nontrivial_key(self, case, groups):
